@@ -265,3 +265,385 @@ Lemma poll_erase_all_quiet c g s p :
 Proof.
   apply poll_erase. intros r _ H. unfold loud in H. apply negb_false_iff in H. exact H.
 Qed.
+
+(** * Part 4: frame -- what a poll does not touch *)
+Lemma state_eqb_eq a b : state_eqb a b = true -> a = b.
+Proof. destruct a, b; cbn; intros H; try discriminate; reflexivity. Qed.
+Lemma state_eqb_refl a : state_eqb a a = true.
+Proof. destruct a; reflexivity. Qed.
+
+Lemma In_set_union z l acc : In z (set_union l acc) <-> In z l \/ In z acc.
+Proof.
+  unfold set_union. revert acc. induction l as [|a l IH]; intros acc; cbn; [tauto|].
+  rewrite IH, In_sadd. intuition.
+Qed.
+
+Lemma bfs_subtree_outside g a : length g <= a -> bfs_subtree g a = [a].
+Proof.
+  intros H. unfold bfs_subtree. cbn [bfs_go]. unfold attr. rewrite nth_overflow by exact H. cbn.
+  destruct (length g); reflexivity.
+Qed.
+
+Section Frame.
+  Variable g : graph.
+  Variable x : nat.
+
+  (** [y] may be executed / swept without touching [x] *)
+  Definition away (y : nat) : Prop := y <> x /\ ~ In x (bfs_subtree g y).
+
+  (** [s'] agrees with [s] on everything that concerns [x]; completed steps stay
+      completed; whatever was queued is away from [x] *)
+  Record ok_step (s s' : st) : Prop := {
+    os_rec : getrec s' x = getrec s x;
+    os_comp : In x (completed s') <-> In x (completed s);
+    os_inp : In x (inprog s') <-> In x (inprog s);
+    os_fail : In x (failed s') <-> In x (failed s);
+    os_canc : In x (cancelled s') <-> In x (cancelled s);
+    os_ready : In x (ready s') <-> In x (ready s);
+    os_mono : incl (completed s) (completed s');
+    os_new : forall z, In z (ready s') -> In z (ready s) \/ away z }.
+
+  Lemma ok_step_refl s : ok_step s s.
+  Proof. constructor; try tauto; auto using incl_refl. Qed.
+
+  Lemma ok_step_trans a b d : ok_step a b -> ok_step b d -> ok_step a d.
+  Proof.
+    intros [A1 A2 A3 A4 A5 A6 A7 A8] [B1 B2 B3 B4 B5 B6 B7 B8]. constructor; try congruence; try tauto.
+    - eapply incl_tran; eauto.
+    - intros z Hz. destruct (B8 z Hz); auto.
+  Qed.
+
+  (** elementary combinators *)
+  Lemma os_recs_only s s' : getrec s' x = getrec s x ->
+    completed s' = completed s -> inprog s' = inprog s -> failed s' = failed s -> cancelled s' = cancelled s ->
+    ready s' = ready s -> ok_step s s'.
+  Proof.
+    intros E0 E1 E2 E3 E4 E5. constructor; rewrite ?E1, ?E2, ?E3, ?E4, ?E5; try tauto; auto using incl_refl.
+  Qed.
+
+  Lemma os_set_status y v s : y <> x -> ok_step s (rec_set_status y v s).
+  Proof. intros H. apply os_recs_only; try reflexivity. apply getrec_set_status_neq; exact H. Qed.
+  Lemma os_inc_restarts y s : y <> x -> ok_step s (rec_inc_restarts y s).
+  Proof.
+    intros H. apply os_recs_only; try reflexivity. unfold getrec, rec_inc_restarts. cbn. apply nth_upd_neq; exact H.
+  Qed.
+  Lemma os_push_job y j s : y <> x -> ok_step s (rec_push_job y j s).
+  Proof.
+    intros H. apply os_recs_only; try reflexivity. unfold getrec, rec_push_job. cbn. apply nth_upd_neq; exact H.
+  Qed.
+  Lemma os_emit e s : ok_step s (emit e s).
+  Proof. apply os_recs_only; reflexivity. Qed.
+  Lemma os_set_next_job v s : ok_step s (set_next_job s v).
+  Proof. apply os_recs_only; reflexivity. Qed.
+  Lemma os_set_subs v s : ok_step s (set_subs s v).
+  Proof. apply os_recs_only; reflexivity. Qed.
+  Lemma os_deps_prune y s : ok_step s (deps_prune y s).
+  Proof. apply os_recs_only; reflexivity. Qed.
+  Lemma os_next_sub s : ok_step s (snd (next_sub s)).
+  Proof. unfold next_sub. destruct (subs s); cbn; [apply ok_step_refl | apply os_set_subs]. Qed.
+
+  Lemma os_completed_add y s : y <> x -> ok_step s (completed_add y s).
+  Proof.
+    intros H. constructor; unfold completed_add; sp; try reflexivity; try tauto.
+    - setsimp. intuition congruence.
+    - intros z Hz. setsimp. auto.
+  Qed.
+  Lemma os_inprog_add y s : y <> x -> ok_step s (inprog_add y s).
+  Proof.
+    intros H. constructor; unfold inprog_add; sp; try reflexivity; try tauto; auto using incl_refl.
+    setsimp. intuition congruence.
+  Qed.
+  Lemma os_inprog_remove y s : y <> x -> ok_step s (inprog_remove y s).
+  Proof.
+    intros H. constructor; unfold inprog_remove; sp; try reflexivity; try tauto; auto using incl_refl.
+    setsimp. intuition congruence.
+  Qed.
+  Lemma os_failed_add y s : y <> x -> ok_step s (failed_add y s).
+  Proof.
+    intros H. constructor; unfold failed_add; sp; try reflexivity; try tauto; auto using incl_refl.
+    setsimp. intuition congruence.
+  Qed.
+  Lemma os_cancelled_add y s : y <> x -> ok_step s (cancelled_add y s).
+  Proof.
+    intros H. constructor; unfold cancelled_add; sp; try reflexivity; try tauto; auto using incl_refl.
+    setsimp. intuition congruence.
+  Qed.
+  Lemma os_ready_push y s : away y -> ok_step s (ready_push y s).
+  Proof.
+    intros H. pose proof H as [H1 H2]. constructor; unfold ready_push; sp; try reflexivity; try tauto; auto using incl_refl.
+    - setsimp. intuition congruence.
+    - intros z Hz. setsimp. destruct Hz as [Hz|[->|[]]]; auto.
+  Qed.
+  Lemma os_pop y rest s : ready s = y :: rest -> y <> x -> ok_step s (set_ready s rest).
+  Proof.
+    intros E H. constructor; sp; try reflexivity; try tauto; auto using incl_refl; rewrite E; cbn.
+    - intuition.
+    - auto.
+  Qed.
+
+  Ltac oks :=
+    repeat first
+      [ apply ok_step_refl
+      | eapply ok_step_trans; [|apply os_set_status; solve [auto]]
+      | eapply ok_step_trans; [|apply os_inc_restarts; solve [auto]]
+      | eapply ok_step_trans; [|apply os_push_job; solve [auto]]
+      | eapply ok_step_trans; [|apply os_emit]
+      | eapply ok_step_trans; [|apply os_set_next_job]
+      | eapply ok_step_trans; [|apply os_set_subs]
+      | eapply ok_step_trans; [|apply os_deps_prune]
+      | eapply ok_step_trans; [|apply os_completed_add; solve [auto]]
+      | eapply ok_step_trans; [|apply os_inprog_add; solve [auto]]
+      | eapply ok_step_trans; [|apply os_inprog_remove; solve [auto]]
+      | eapply ok_step_trans; [|apply os_failed_add; solve [auto]]
+      | eapply ok_step_trans; [|apply os_cancelled_add; solve [auto]]
+      | eapply ok_step_trans; [|apply os_ready_push; solve [auto]] ].
+
+  (** the two sweep loops, away from [x] *)
+  Lemma os_mark_failed_list l : ~ In x l -> forall s, ok_step s (mark_failed_list l s).
+  Proof.
+    unfold mark_failed_list. induction l as [|a l IH]; intros H s; cbn [fold_left]; [apply ok_step_refl|].
+    assert (a <> x) by (intros ->; apply H; left; reflexivity).
+    eapply ok_step_trans; [|apply IH; intros Hc; apply H; right; exact Hc]. oks.
+  Qed.
+  Lemma os_mark_cancelled_list l : ~ In x l -> forall s, ok_step s (mark_cancelled_list l s).
+  Proof.
+    unfold mark_cancelled_list. induction l as [|a l IH]; intros H s; cbn [fold_left]; [apply ok_step_refl|].
+    assert (a <> x) by (intros ->; apply H; left; reflexivity).
+    eapply ok_step_trans; [|apply IH; intros Hc; apply H; right; exact Hc]. oks.
+  Qed.
+
+  (** the submission loop of another step *)
+  Lemma submit_attempts_S y restart n s :
+    submit_attempts g y restart (S n) s =
+    let s1 := if restart then emit (EGen y) s else rec_set_status y PENDING s in
+    let s2 := if scheduled (attr g y) then s1 else rec_set_status y RUNNING s1 in
+    let b := fst (next_sub s2) in
+    let s3 := snd (next_sub s2) in
+    let k := if restart then Restart else Main in
+    if b then
+      (true, emit (ESubmit y k (scheduled (attr g y)) (Some (next_job s3)))
+                  (rec_push_job y (next_job s3) (set_next_job s3 (S (next_job s3)))))
+    else submit_attempts g y restart n (emit (ESubmit y k (scheduled (attr g y)) None) s3).
+  Proof.
+    cbv zeta. unfold submit_attempts; fold submit_attempts. destruct (next_sub _). reflexivity.
+  Qed.
+
+  Lemma os_submit_attempts y restart n : y <> x -> forall s, ok_step s (snd (submit_attempts g y restart n s)).
+  Proof.
+    intros H. induction n as [|n IH]; intros s.
+    - apply ok_step_refl.
+    - rewrite submit_attempts_S. cbv zeta.
+      set (s1 := if restart then emit (EGen y) s else rec_set_status y PENDING s).
+      set (s2 := if scheduled (attr g y) then s1 else rec_set_status y RUNNING s1).
+      assert (A1 : ok_step s s1) by (subst s1; destruct restart; oks).
+      assert (A2 : ok_step s1 s2) by (subst s2; destruct (scheduled (attr g y)); oks).
+      assert (A3 : ok_step s2 (snd (next_sub s2))) by apply os_next_sub.
+      assert (A : ok_step s (snd (next_sub s2))) by (eapply ok_step_trans; [eapply ok_step_trans|]; eassumption).
+      destruct (fst (next_sub s2)); cbn [snd].
+      + eapply ok_step_trans; [exact A|]. oks.
+      + eapply ok_step_trans; [|apply IH]. eapply ok_step_trans; [exact A|]. oks.
+  Qed.
+
+  Lemma os_execute_record c y restart s : away y -> ok_step s (execute_record_gen c g y restart s).
+  Proof.
+    intros [H1 H2]. unfold execute_record_gen.
+    set (s0 := if negb restart then emit (EGen y) s else s).
+    assert (A0 : ok_step s s0) by (subst s0; destruct (negb restart); oks).
+    destruct (dry c).
+    - eapply ok_step_trans; [exact A0|]. oks.
+    - pose proof (os_submit_attempts y restart (attempts c) H1 s0) as A1.
+      destruct (submit_attempts g y restart (attempts c) s0) as [ok s1]. cbn [snd] in A1.
+      assert (A : ok_step s s1) by (eapply ok_step_trans; eassumption).
+      destruct ok.
+      + destruct (negb (scheduled (attr g y))); (eapply ok_step_trans; [exact A|]); oks.
+      + eapply ok_step_trans; [|apply os_mark_failed_list; exact H2].
+        eapply ok_step_trans; [exact A|]. oks.
+  Qed.
+
+  (** one report: quiet if it is [x]'s own, else about a step away from [x] *)
+  Definition rep_ok (r : nat * option State) : Prop :=
+    (fst r = x -> quiet (snd r) = true) /\ (fst r <> x -> ~ In x (bfs_subtree g (fst r))).
+
+  Lemma os_handle_report c s cl ca r : rep_ok r -> ~ In x cl -> ~ In x ca ->
+    let '(s', cl', ca') := handle_report_gen c g (s, cl, ca) r in
+    ok_step s s' /\ ~ In x cl' /\ ~ In x ca'.
+  Proof.
+    intros [R1 R2] Hcl Hca. destruct r as [y o]. cbn [fst snd] in *.
+    destruct (Nat.eq_dec y x) as [->|Hn].
+    { rewrite handle_quiet by auto. split; [apply ok_step_refl|auto]. }
+    specialize (R2 Hn).
+    assert (Hu : forall l, ~ In x l -> ~ In x (set_union (bfs_subtree g y) l)).
+    { intros l Hl. rewrite In_set_union. tauto. }
+    assert (Hw : away y) by (split; assumption).
+    destruct o as [v|]; [destruct v|]; cbn [handle_report_gen oeqb state_eqb];
+      try (split; [apply ok_step_refl|auto]; fail);
+      try (split; [oks|auto]; fail).
+    - (* TIMEDOUT *)
+      destruct (has_restart (attr g y) && negb (canceled s)).
+      + unfold mark_restart_gen.
+        destruct ((rlimit (attr g y) =? 0) || (restarts (getrec (rec_set_status y TIMEDOUT s) y) <? rlimit (attr g y))).
+        * split; [|auto]. eapply ok_step_trans; [|apply os_execute_record; exact Hw]. oks.
+        * split; [oks|auto].
+      + split; [oks|]. split; auto. rewrite In_srem. intros [_ Hc]. revert Hc. apply Hu. exact Hcl.
+  Qed.
+
+  Lemma os_fold_reports c reps : Forall rep_ok reps -> forall s cl ca, ~ In x cl -> ~ In x ca ->
+    let '(s', cl', ca') := fold_left (handle_report_gen c g) reps (s, cl, ca) in
+    ok_step s s' /\ ~ In x cl' /\ ~ In x ca'.
+  Proof.
+    induction 1 as [|r reps Hr Hreps IH]; intros s cl ca Hcl Hca; cbn [fold_left].
+    - split; [apply ok_step_refl|auto].
+    - pose proof (os_handle_report c s cl ca r Hr Hcl Hca) as A.
+      destruct (handle_report_gen c g (s, cl, ca) r) as [[s1 cl1] ca1]. destruct A as (A1 & A2 & A3).
+      specialize (IH s1 cl1 ca1 A2 A3).
+      destruct (fold_left (handle_report_gen c g) reps (s1, cl1, ca1)) as [[s2 cl2] ca2].
+      destruct IH as (B1 & B2 & B3). split; [eapply ok_step_trans; eassumption|auto].
+  Qed.
+
+  Lemma os_dispatch c reps s : Forall rep_ok reps -> ok_step s (dispatch_gen c g reps s).
+  Proof.
+    intros H. unfold dispatch_gen.
+    pose proof (os_fold_reports c reps H s [] [] (fun f => f) (fun f => f)) as A.
+    destruct (fold_left (handle_report_gen c g) reps (s, [], [])) as [[s1 cl] ca]. destruct A as (A1 & A2 & A3).
+    eapply ok_step_trans; [exact A1|].
+    eapply ok_step_trans; [apply os_mark_failed_list; exact A2 | apply os_mark_cancelled_list; exact A3].
+  Qed.
+
+  (** what staging and launching need to know about the state *)
+  Record guard (s : st) : Prop := {
+    g_st : status (getrec s x) <> INITIALIZED;
+    g_anc : forall a, a <> x -> In x (bfs_subtree g a) -> In a (completed s);
+    g_ready : forall y, In y (ready s) -> away y }.
+
+  Lemma guard_step s s' : guard s -> ok_step s s' -> guard s'.
+  Proof.
+    intros [A B C] O. constructor.
+    - rewrite (os_rec _ _ O). exact A.
+    - intros a Ha Hx. apply (os_mono _ _ O). auto.
+    - intros y Hy. destruct (os_new _ _ O y Hy); auto.
+  Qed.
+
+  Lemma os_stage_node s y : guard s -> ok_step s (stage_node_gen g s y).
+  Proof.
+    intros G. unfold stage_node_gen.
+    destruct (mem y (completed s)) eqn:Ec; [apply ok_step_refl|].
+    destruct (state_eqb (status (getrec s y)) INITIALIZED) eqn:Es; [|apply ok_step_refl].
+    apply state_eqb_eq in Es.
+    assert (Hn : y <> x) by (intros ->; exact (g_st s G Es)).
+    assert (Hw : away y).
+    { split; auto. intros Hx. apply mem_false in Ec. apply Ec. apply (g_anc s G); auto. }
+    destruct (is_nil (getdeps (deps_prune y s) y)); [|oks].
+    destruct (negb (mem y (ready (deps_prune y s)))); oks.
+  Qed.
+
+  Lemma os_stage_fold l : forall s, guard s -> ok_step s (fold_left (stage_node_gen g) l s).
+  Proof.
+    induction l as [|y l IH]; intros s G; cbn [fold_left]; [apply ok_step_refl|].
+    pose proof (os_stage_node s y G) as A. eapply ok_step_trans; [exact A|].
+    apply IH. eapply guard_step; eauto.
+  Qed.
+
+  Lemma os_launch_body c s : guard s -> ok_step s (launch_body_gen c g s).
+  Proof.
+    intros G. unfold launch_body_gen. destruct (ready s) as [|y rest] eqn:E; [apply ok_step_refl|].
+    assert (Hw : away y) by (apply (g_ready s G); rewrite E; left; reflexivity).
+    pose proof Hw as [Hn _].
+    pose proof (os_pop y rest s E Hn) as A.
+    destruct (canceled (set_ready s rest)).
+    - eapply ok_step_trans; [exact A|]. oks.
+    - eapply ok_step_trans; [exact A|]. apply os_execute_record. exact Hw.
+  Qed.
+
+  Lemma os_launch_iter c n : forall s, guard s -> ok_step s (Nat.iter n (launch_body_gen c g) s).
+  Proof.
+    induction n as [|n IH]; intros s G; cbn [Nat.iter nat_rect]; [apply ok_step_refl|].
+    specialize (IH s G). eapply ok_step_trans; [exact IH|].
+    apply os_launch_body. eapply guard_step; eauto.
+  Qed.
+
+  Lemma os_stage_launch c s : guard s -> ok_step s (fst (stage_launch c g s)).
+  Proof.
+    intros G. unfold stage_launch. cbn [fst].
+    pose proof (os_stage_fold (seq 0 (length g)) s G) as A.
+    eapply ok_step_trans; [exact A|]. apply os_launch_iter. eapply guard_step; eauto.
+  Qed.
+
+  Lemma os_at_query c s p : ok_step s (at_query c s p).
+  Proof.
+    unfold at_query, cancel_study_gen.
+    destruct (cancel_req p), (negb (dry c)); apply os_recs_only; reflexivity.
+  Qed.
+
+  (** the whole poll *)
+  Lemma os_poll c s p : guard s -> Forall rep_ok (delivered c p) -> ok_step s (fst (poll c g s p)).
+  Proof.
+    intros G R.
+    destruct (dry c) eqn:Hd; [|destruct (qcode_eqb (qcode p) QERROR) eqn:Hq].
+    - rewrite poll_phases by congruence.
+      pose proof (os_at_query c s p) as A. pose proof (os_dispatch c _ (at_query c s p) R) as B.
+      eapply ok_step_trans; [exact A|]. eapply ok_step_trans; [exact B|].
+      apply os_stage_launch. eapply guard_step; [|exact B]. eapply guard_step; eauto.
+    - assert (qcode p = QERROR) by (destruct (qcode p); try discriminate; reflexivity).
+      rewrite poll_error by assumption. cbn [fst]. destruct (cancel_req p); apply os_recs_only; reflexivity.
+    - rewrite poll_phases by (intros _ E; rewrite E in Hq; discriminate).
+      pose proof (os_at_query c s p) as A. pose proof (os_dispatch c _ (at_query c s p) R) as B.
+      eapply ok_step_trans; [exact A|]. eapply ok_step_trans; [exact B|].
+      apply os_stage_launch. eapply guard_step; [|exact B]. eapply guard_step; eauto.
+  Qed.
+End Frame.
+
+(** the invariant supplies the guard for every tracked step *)
+Lemma Inv_guard g s x : WF g -> Inv g s -> In x (inprog s) -> guard g x s.
+Proof.
+  intros W I Hx.
+  assert (Hanc : forall a, a <> x -> In x (bfs_subtree g a) -> In a (completed s)).
+  { intros a Ha Hin. destruct (Nat.lt_ge_cases a (length g)) as [Hl|Hl].
+    - eapply anc_completed; eauto. apply bfs_subtree_sound; auto.
+    - rewrite bfs_subtree_outside in Hin by exact Hl. destruct Hin as [->|[]]. congruence. }
+  constructor.
+  - apply (i_init g s I). auto.
+  - exact Hanc.
+  - intros y Hy. split.
+    + intros ->. exact (i_dj_ir g s I x Hx Hy).
+    + intros Hin. destruct (Nat.eq_dec y x) as [->|Hn]; [exact (i_dj_ir g s I x Hx Hy)|].
+      exact (i_dj_cr g s I y (Hanc y Hn Hin) Hy).
+Qed.
+
+Lemma Inv_rep_ok g s x reps : WF g -> Inv g s -> In x (inprog s) ->
+  (forall r, In r reps -> In (fst r) (inprog s)) ->
+  (forall o, In (x, o) reps -> quiet o = true) ->
+  Forall (rep_ok g x) reps.
+Proof.
+  intros W I Hx Hv Hq. apply Forall_forall. intros [y o] Hr. split; cbn [fst snd].
+  - intros ->. apply Hq. exact Hr.
+  - intros Hn Hin. specialize (Hv _ Hr). cbn in Hv.
+    assert (In y (completed s)).
+    { destruct (Nat.lt_ge_cases y (length g)) as [Hl|Hl].
+      - eapply anc_completed; eauto. apply bfs_subtree_sound; auto.
+      - rewrite bfs_subtree_outside in Hin by exact Hl. destruct Hin as [->|[]]. congruence. }
+    exact (i_dj_ci g s I y H Hv).
+Qed.
+
+(** [valid_reports]: the adapters key their answer by the queried job ids *)
+Definition valid_reports (s : st) (p : pin) : Prop := forall r, In r (reports p) -> In (fst r) (inprog s).
+
+Lemma delivered_incl c p r : In r (delivered c p) -> In r (reports p).
+Proof. unfold delivered. destruct (dry c); [intros []|]. destruct (qcode p); auto; intros []. Qed.
+
+Theorem poll_frame c g s p x : WF g -> Inv g s -> valid_reports s p -> In x (inprog s) ->
+  (forall o, In (x, o) (delivered c p) -> quiet o = true) ->
+  let s' := fst (poll c g s p) in
+  getrec s' x = getrec s x /\ In x (inprog s') /\
+  ~ In x (completed s') /\ ~ In x (failed s') /\ ~ In x (cancelled s') /\ ~ In x (ready s').
+Proof.
+  intros W I V Hx Hq.
+  assert (O : ok_step g x s (fst (poll c g s p))).
+  { apply os_poll; [apply Inv_guard; auto|].
+    eapply Inv_rep_ok; eauto. intros r Hr. apply V. eapply delivered_incl; eauto. }
+  cbv zeta. destruct O as [O1 O2 O3 O4 O5 O6 _ _].
+  rewrite O1, O2, O3, O4, O5, O6. splits; auto.
+  - intros H. exact (i_dj_ci g s I x H Hx).
+  - intros H. destruct (i_dj_fc g s I x (or_introl H)) as (_ & A & _). auto.
+  - intros H. destruct (i_dj_fc g s I x (or_intror H)) as (_ & A & _). auto.
+  - exact (i_dj_ir g s I x Hx).
+Qed.
